@@ -164,7 +164,8 @@ def worker(case: Dict[str, Any]) -> CaseResult:
             return CaseResult("inconclusive", note="package import failed (%s: %s) - C04's concern" % (type(e).__name__, str(e)[:300]), stats={"import_failed": 1})
         mod = sys.modules["%s.%s" % (pkg.__name__, cfg.get("input_types_module_name", "input_types"))]
         server = RefServer(schema_ref)
-        client, is_async = make_client(pkg, cfg, server)
+        from ..deps import make_tracer
+        client, is_async = make_client(pkg, cfg, server, make_tracer() if (case.get("cfg") or {}).get("_tracer") else None)  # the traced code path is a different one
         methods = find_methods(pkg, cfg, ["Carry%d" % i for i in range(len(input_names))])
         thorough = case.get("tier") == "thorough"
         for ti, tname in enumerate(input_names):
